@@ -343,22 +343,37 @@ def setup():
 
 
 def baseline():
-    """Repository test suite with the verif tag OFF; the stable baseline tests must all pass."""
-    p = subprocess.run("cd %s && go test -p 1 -json -vet=off -count=1 -timeout 25m ./..." % core.REPO, shell=True,
-                       env=core.goenv(), stdout=subprocess.PIPE, stderr=subprocess.STDOUT, text=True)
-    passed, failed = set(), set()
-    for ln in p.stdout.splitlines():
-        try:
-            e = json.loads(ln)
-        except ValueError:
-            continue
-        if e.get("Test") and e.get("Action") in ("pass", "fail"):
-            (passed if e["Action"] == "pass" else failed).add(e["Package"] + "::" + e["Test"])
+    """Repository test suite with the verif tag OFF; the stable baseline tests must all pass.
+
+    The pinned suite has a race of its own: TestServiceConnectSuccess (an always-failing test) leaves a
+    goroutine behind that may call t.Fail after the test has completed, which makes the test binary of
+    package service panic at a random later point and takes whatever test is running with it (most
+    often TestServiceConnectAuthError). The run is therefore repeated, up to 6 times, until every
+    baseline test has passed in some run; a test that never passes is reported."""
     want = [l.strip() for l in open(os.path.join(core.ROOT, "lib", "baseline_tests.txt")) if l.strip()]
-    missing = [t for t in want if t not in passed]
-    sys.stdout.write(p.stdout)
-    print("baseline: %d of %d stable tests pass with the verif tag off; %d other failures" % (
-        len(want) - len(missing), len(want), len(failed - set(want))))
+    passed_any = set()
+    runs = 0
+    while runs < 6:
+        runs += 1
+        p = subprocess.run("cd %s && go test -p 1 -json -vet=off -count=1 -timeout 180s ./..." % core.REPO, shell=True,
+                           env=core.goenv(), stdout=subprocess.PIPE, stderr=subprocess.STDOUT, text=True)
+        passed, failed = set(), set()
+        for ln in p.stdout.splitlines():
+            try:
+                e = json.loads(ln)
+            except ValueError:
+                continue
+            if e.get("Test") and e.get("Action") in ("pass", "fail"):
+                (passed if e["Action"] == "pass" else failed).add(e["Package"] + "::" + e["Test"])
+        if runs == 1:
+            sys.stdout.write(p.stdout)
+        passed_any |= passed
+        missing = [t for t in want if t not in passed_any]
+        print("baseline run %d: %d of %d stable tests passed in this run, %d not yet seen passing" % (
+            runs, len([t for t in want if t in passed]), len(want), len(missing)))
+        if not missing:
+            break
     for t in missing:
         print("BASELINE-MISSING %s" % t)
+    print("baseline: %d of %d stable tests pass with the verif tag off (%d run(s))" % (len(want) - len(missing), len(want), runs))
     return 1 if missing else 0
